@@ -51,6 +51,11 @@ Definition handle_solve (cmd : string) (args : list sexp) : option sexp :=
                  | Some mx, Some n => Some (put_res (solve_odeint mx n))
                  | _, _ => Some (err "bad args")
                  end
+    (* Init with budget b0, Reset with budget mx, then one Solve (C19.odeint_budget_is_the_last_given) *)
+    | [mx; n; b0] => match get_nat mx, get_nat n, get_nat b0 with
+                     | Some mx, Some n, Some b0 => Some (put_res (last (odeint_history 0 [OInit b0; OReset mx; OSolve n]) Success))
+                     | _, _, _ => Some (err "bad args")
+                     end
     | _ => Some (err "bad args")
     end
   else None.
